@@ -34,12 +34,13 @@ WATCH = (os.path.join(runner.REPO, 'clastic') + os.sep, '<sinter')
 
 ROUTES = ['ok', 'stream', 'ctx', 'static-small', 'static-big', 'static-empty', 'static-empty', 'static-missing', 'static-oddtime', 'static-oddtime', 'reroute-branch', 'reroute-branch-noslash', 'reroute-branch-dslash', 'reroute-app', 'reroute-app', 'branch', 'missing', 'm405', 'boom',
           'http403', 'meta', 'meta-json', 'gz', 'cache', 'reroute-raise', 'reroute-ep', 'reroute-fn-ep', 'reroute-deco-raise', 'sub-ok', 'empty', 'bytes-big',
-          'static-noext-big', 'static-noext-big', 'static-noext-small']
+          'static-noext-big', 'static-noext-big', 'static-noext-small', 'branch-ctl1', 'branch-ctl2', 'branch-ctl3']
 PATH = {'ok': '/ok', 'stream': '/stream', 'ctx': '/ctx', 'static-small': '/s/a.txt', 'static-big': '/s/big.bin',
         'static-missing': '/s/nope', 'static-empty': '/s/empty.txt', 'static-oddtime': '/s/odd.txt', 'reroute-branch': '/rb/', 'reroute-branch-noslash': '/rb',
         'reroute-branch-dslash': '/rb//', 'reroute-app': '/r3/some/path', 'branch': '/b', 'missing': '/missing', 'm405': '/g', 'boom': '/boom',
         'http403': '/forbidden', 'meta': '/meta/', 'meta-json': '/meta/json/', 'gz': '/gz', 'cache': '/cache',
         'reroute-raise': '/rr', 'reroute-ep': '/r2', 'reroute-fn-ep': '/r4', 'reroute-deco-raise': '/r5',
+        'branch-ctl1': '/bx/q%01', 'branch-ctl2': '/bx/a%00b%1F', 'branch-ctl3': '/bx/%7F%0B%1B[31m',
         'static-noext-big': '/s/LICENSE', 'static-noext-small': '/s/README', 'sub-ok': '/in/x', 'empty': '/empty', 'bytes-big': '/big'}
 METHODS = ['GET', 'GET', 'HEAD', 'POST', 'OPTIONS']
 HEADER_SETS = [{'If-Modified-Since': 'Fri, 01 Jan 2100 00:00:00 GMT'}, {'If-Modified-Since': 'Thu, 01 Jan 1970 00:00:10 GMT'},
@@ -304,7 +305,7 @@ class C13(Check):
         inner = Application([Route('/x', ok, middlewares=objs('r', cfg['route_wrappers']))],
                             middlewares=objs('s', cfg['sub_wrappers']))
         routes = [('/ok', ok), ('/stream', stream), ('/ctx', ctx, render_basic), ('/s/', StaticApplication(root)),
-                  ('/b/', ok), GET('/g', ok), ('/boom', boom), ('/forbidden', forbidden), ('/meta/', MetaApplication()),
+                  ('/b/', ok), ('/bx/<x>/', lambda x: ok()), GET('/g', ok), ('/boom', boom), ('/forbidden', forbidden), ('/meta/', MetaApplication()),
                   Route('/gz', compressible, middlewares=[GzipMiddleware()]),
                   Route('/cache', ok, middlewares=[HTTPCacheMiddleware()]),
                   ('/rr', rr), ('/r2', RerouteWSGI(target)), ('/r4', RerouteWSGI(legacy_app)), ('/r5', rr5), ('/rb/', RerouteWSGI(target)),
@@ -547,8 +548,10 @@ class C13(Check):
         if 'If-Modified-Since' in op['headers'] and route.startswith('static') and ex.code == 304:
             res.probe('conditional-static-304')
             want = None
-        if route == 'branch':
+        if route == 'branch' or route.startswith('branch-ctl'):
             want = {'redirect': 302, 'rewrite': 200, 'strict': 404}[mode]
+            if route != 'branch':
+                res.probe('slash-redirect-of-a-path-with-control-characters')
         if route in ('meta', 'meta-json', 'static-small', 'static-big', 'static-empty', 'static-noext-big', 'static-noext-small', 'static-missing', 'static-oddtime', 'sub-ok') and mode == 'strict':
             want = None      # embedded applications under a strict host: slash handling of their mounts is C07 territory
         if route == 'static-oddtime':
